@@ -188,7 +188,8 @@ Definition pragma_step (st : pstate) (n : Z) (l : line) : pstate :=
     let re1 := if starts_with pp_include l
                then match report_empty st1 with None => Some (cmp empty_after_op empty_after_bound (empty_no st1)) | x => x end
                else report_empty st1 in
-    let re2 := if starts_with pp_hash l then match re1 with None => Some false | x => x end else re1 in
+    let re2 := if starts_with pp_hash l && (match got_pragma st1 with None => false | Some _ => true end)
+               then match re1 with None => Some false | x => x end else re1 in
     let en := match got_pragma st1 with Some true => if is_nil l then n else empty_no st1 | _ => empty_no st1 end in
     let gp := match got_pragma st1 with None => Some (list_eqb l pragma_once) | x => x end in
     mkps gp (got_license st1) en re2 (inside st1).
